@@ -18,12 +18,27 @@ def run(v, tier):
                                       nested=rng.random() < 0.5, disjoint=rng.random() < 0.65,
                                       nsugar=rng.choice([0, 0, 1]), nquoted=rng.choice([0, 0, 1, 2]))
         reqs.append({'cmd': 'mmdb', 'text': text, 'lemmas': lemmas})
+    # history: a database in which a token is a CONSTANT, handled after a database in which the same token is a VARIABLE
+    # (the parse must be a function of the text alone); its fresh parse comes from a process that has seen nothing else
+    def retoken(text, ren):
+        return '\n'.join(' '.join(ren.get(tok, tok) for tok in line.split(' ')) for line in text.split('\n'))
+    hist = []
+    for i in range(4 if quick else 24):
+        t1, _ = mmgen.database(random.Random(rng.random()), nlemmas=1, zmode='none', nconstr=2, naxioms=2, nrules=1)
+        t2, l2 = mmgen.database(random.Random(rng.random()), nlemmas=rng.choice([1, 2]), zmode=rng.choice(['none', 'all']), nconstr=2, naxioms=3, nrules=1)
+        t2 = retoken(t2, {'ph3': 'ph9', 'ph3-is-pattern': 'ph9-is-pattern', '\\c0': 'ph3'})
+        hist.append(len(reqs))
+        reqs.append({'cmd': 'mmdb', 'text': t2, 'lemmas': l2, 'pre': [t1]})
     # shipped benchmarks: print / parse round trip (slicing only for the small ones)
     for f in sorted(glob.glob(os.path.join(pi2v.REPO, 'generation/mm-benchmarks/*.mm'))):
         sz = os.path.getsize(f)
         if sz < (40000 if quick else 400000):
             reqs.append({'cmd': 'mmdb', 'text': open(f).read(), 'lemmas': [], 'slice': False, 'file': os.path.basename(f)})
     res = c15.lem_run(reqs)
+    from concurrent.futures import ThreadPoolExecutor
+    with ThreadPoolExecutor(8) as ex:      # one fresh harness process per history case
+        fresh = list(ex.map(lambda k: pi2v.py_run([{'cmd': 'mmdb', 'text': reqs[k]['text'], 'lemmas': [], 'slice': False}], script='mmharness.py')[0], hist))
+    fresh = {k: (f['ast'] if f['out'] == 'ok' else []) for k, f in zip(hist, fresh)}
     cases = []
     for q, r in zip(reqs, res):
         if r['out'] != 'ok':
@@ -31,6 +46,9 @@ def run(v, tier):
         else:
             cases.append({'fam': 'db', 'out': 'ok', 'exc': '', 'text': q['text'] if len(q['text']) < 5000 else q.get('file', ''), 'lemmas': q['lemmas'] if q.get('slice', True) else [],
                           'ast': r['ast'], 'printed': r['printed'], 'ast2': r['ast2'], 'slices': r['slices']})
+        k = len(cases) - 1
+        cases[-1]['hasfresh'] = k in fresh
+        cases[-1]['fresh'] = fresh.get(k, [])
     v.cov['databases'] = len(cases)
     v.cov['slices'] = sum(len(c['slices']) for c in cases)
     v.sample({'database': cases[0]['text'][-600:], 'lemmas': cases[0]['lemmas']})
